@@ -826,3 +826,225 @@ Proof.
     apply bind_panic in H as [H|(r & _ & H)]; [|discriminate].
     exact (new_plugin_no_panic E Hs _ _ _ _ (proj1 (find_plugin_in _ _ _ _ Ef)) H).
 Qed.
+
+(* ===================== Go's map iteration order is irrelevant ===================== *)
+From Coq Require Import Permutation.
+
+Lemma pelem_eqb_sym a b : pelem_eqb a b = pelem_eqb b a.
+Proof.
+  destruct a as [x|x], b as [y|y]; cbn [pelem_eqb]; try reflexivity;
+    (destruct (bytes_eqb x y) eqn:E1; destruct (bytes_eqb y x) eqn:E2; try reflexivity;
+     [apply bytes_eqb_eq in E1; subst; rewrite bytes_eqb_refl in E2; discriminate
+     |apply bytes_eqb_eq in E2; subst; rewrite bytes_eqb_refl in E1; discriminate]).
+Qed.
+Lemma same_type_sym a b : same_type a b = same_type b a.
+Proof. destruct a, b; reflexivity. Qed.
+Lemma compat_sym p : forall q, compat p q = compat q p.
+Proof.
+  induction p as [|a p IH]; intros [|b q]; cbn [compat]; try reflexivity.
+  rewrite (pelem_eqb_sym a b). destruct (pelem_eqb b a); [apply IH|apply same_type_sym].
+Qed.
+Lemma pelem_eqb_refl a : pelem_eqb a a = true.
+Proof. destruct a; cbn; apply bytes_eqb_refl. Qed.
+Lemma compat_refl p : compat p p = true.
+Proof. induction p as [|a p IH]; [reflexivity|]. cbn [compat]. rewrite pelem_eqb_refl. exact IH. Qed.
+
+Definition mk_entry (kv : bytes * bytes) (p : list pelem) : sentry := {| e_key := fst kv; e_path := p; e_val := snd kv |}.
+
+(* what set_all does on keys that are not yet stored and pairwise different: it appends, checking each new path against
+   everything stored before *)
+Lemma upsert_fresh st k p v : (forall e, In e st -> e_key e <> k) -> upsert st k p v = st ++ [{| e_key := k; e_path := p; e_val := v |}].
+Proof.
+  induction st as [|e st IH]; intro H; [reflexivity|]. cbn [upsert].
+  destruct (bytes_eqb (e_key e) k) eqn:E; [apply bytes_eqb_eq in E; exfalso; apply (H e); [now left|assumption]|].
+  cbn [app]. rewrite IH; [reflexivity|]. intros e' He'. apply H. now right.
+Qed.
+
+(* the declarative reading of a successful toStorage on pairwise distinct keys *)
+Inductive stored : storage -> list (bytes * bytes) -> storage -> Prop :=
+| stored_nil st : stored st [] st
+| stored_cons st k v p kvs st' :
+    split_path k = Some p -> (forall e, In e st -> compat p (e_path e) = true) ->
+    stored (st ++ [{| e_key := k; e_path := p; e_val := v |}]) kvs st' -> stored st ((k, v) :: kvs) st'.
+
+Lemma set_all_stored kvs : forall st st', NoDup (map fst kvs) -> (forall e, In e st -> ~ In (e_key e) (map fst kvs)) ->
+  (set_all st kvs = Some st' <-> stored st kvs st').
+Proof.
+  induction kvs as [|[k v] kvs IH]; intros st st' Hnd Hfresh.
+  - cbn [set_all]. split; intro H; [inversion H; constructor|inversion H; reflexivity].
+  - inversion Hnd as [|? ? Hk Hnd']; subst. cbn [set_all]. unfold st_set.
+    assert (Hup : forall p, upsert st k p v = st ++ [{| e_key := k; e_path := p; e_val := v |}]).
+    { intro p. apply upsert_fresh. intros e He Heq. apply (Hfresh e He). left. symmetry. exact Heq. }
+    assert (Hfresh' : forall p e, In e (st ++ [{| e_key := k; e_path := p; e_val := v |}]) -> ~ In (e_key e) (map fst kvs)).
+    { intros p e He. apply in_app_or in He as [He|[He|[]]].
+      - intro Hin. apply (Hfresh e He). now right.
+      - subst e. cbn [e_key]. exact Hk. }
+    split.
+    + destruct (split_path k) as [p|] eqn:Es; [|discriminate].
+      destruct (forallb (fun e => compat p (e_path e)) st) eqn:Ec; [|discriminate].
+      rewrite Hup. intro H. econstructor; [exact Es| |].
+      * intros e He. rewrite forallb_forall in Ec. exact (Ec e He).
+      * apply (IH _ _ Hnd' (Hfresh' p)). exact H.
+    + intro H. inversion H as [|? ? ? p ? ? Es Hc Hr]; subst. rewrite Es.
+      replace (forallb (fun e => compat p (e_path e)) st) with true by (symmetry; apply forallb_forall; exact Hc).
+      rewrite Hup. apply (IH _ _ Hnd' (Hfresh' p)). exact Hr.
+Qed.
+
+(* the order-free characterisation: from the empty storage, success means every key parses and all paths are pairwise
+   compatible; the result lists the entries in order *)
+Definition all_split (kvs : list (bytes * bytes)) : Prop := forall kv, In kv kvs -> split_path (fst kv) <> None.
+Definition path_of (k : bytes) : list pelem := match split_path k with Some p => p | None => [] end.
+Definition pairwise_compat (kvs : list (bytes * bytes)) : Prop :=
+  forall a b, In a kvs -> In b kvs -> compat (path_of (fst a)) (path_of (fst b)) = true.
+Definition entries_of (kvs : list (bytes * bytes)) : storage := map (fun kv => mk_entry kv (path_of (fst kv))) kvs.
+
+Lemma stored_spec kvs : forall st st', stored st kvs st' ->
+  st' = st ++ entries_of kvs /\ all_split kvs /\
+  (forall a e, In a kvs -> In e st -> compat (path_of (fst a)) (e_path e) = true) /\
+  ForallOrdPairs (fun a b => compat (path_of (fst b)) (path_of (fst a)) = true) kvs.
+Proof.
+  induction 1 as [st|st k v p kvs st' Es Hc Hr IH].
+  - rewrite app_nil_r. repeat split; [intros kv []|intros a e []|constructor].
+  - destruct IH as (E & Hs & Hce & Hop). repeat split.
+    + rewrite E. rewrite <- app_assoc. cbn [app entries_of map mk_entry fst snd]. unfold path_of at 1. rewrite Es. reflexivity.
+    + intros kv [Hkv|Hkv]; [subst kv; cbn [fst]; rewrite Es; discriminate|exact (Hs kv Hkv)].
+    + intros a e [Ha|Ha] He.
+      * subst a. cbn [fst]. unfold path_of. rewrite Es. exact (Hc e He).
+      * apply Hce; [assumption|]. apply in_or_app. now left.
+    + constructor; [|exact Hop]. apply Forall_forall. intros b Hb. cbn [fst].
+      specialize (Hce b {| e_key := k; e_path := p; e_val := v |} Hb). cbn [e_path] in Hce.
+      unfold path_of at 2. rewrite Es. apply Hce. apply in_or_app. right. now left.
+Qed.
+
+Lemma spec_stored kvs : forall st, all_split kvs ->
+  (forall a e, In a kvs -> In e st -> compat (path_of (fst a)) (e_path e) = true) ->
+  ForallOrdPairs (fun a b => compat (path_of (fst b)) (path_of (fst a)) = true) kvs ->
+  stored st kvs (st ++ entries_of kvs).
+Proof.
+  induction kvs as [|[k v] kvs IH]; intros st Hs Hce Hop.
+  - cbn. rewrite app_nil_r. constructor.
+  - inversion Hop as [|? ? Hhd Htl]; subst.
+    destruct (split_path k) as [p|] eqn:Es; [|exfalso; apply (Hs (k, v)); [now left|exact Es]].
+    assert (Hp : path_of k = p) by (unfold path_of; rewrite Es; reflexivity).
+    replace (st ++ entries_of ((k, v) :: kvs)) with ((st ++ [{| e_key := k; e_path := p; e_val := v |}]) ++ entries_of kvs)
+      by (rewrite <- app_assoc; cbn [app entries_of map mk_entry fst snd]; rewrite Hp; reflexivity).
+    econstructor; [exact Es| |].
+    + intros e He. rewrite <- Hp. apply (Hce (k, v) e); [now left|assumption].
+    + apply IH.
+      * intros kv Hkv. apply Hs. now right.
+      * intros a e Ha He. apply in_app_or in He as [He|[He|[]]].
+        -- apply Hce; [now right|assumption].
+        -- subst e. cbn [e_path]. rewrite <- Hp. rewrite Forall_forall in Hhd. exact (Hhd a Ha).
+      * exact Htl.
+Qed.
+
+Theorem to_storage_spec kvs st : NoDup (map fst kvs) ->
+  (set_all [] kvs = Some st <-> st = entries_of kvs /\ all_split kvs /\ pairwise_compat kvs).
+Proof.
+  intro Hnd. rewrite (set_all_stored kvs [] st Hnd) by (intros e []). split.
+  - intro H. destruct (stored_spec _ _ _ H) as (E & Hs & _ & Hop). split; [exact E|]. split; [exact Hs|].
+    intros a b Ha Hb. destruct (ForallOrdPairs_In Hop _ _ Ha Hb) as [Heq|[H1|H1]].
+    + subst b. apply compat_refl.
+    + rewrite compat_sym. exact H1.
+    + exact H1.
+  - intros (E & Hs & Hpc). subst st. change (entries_of kvs) with ([] ++ entries_of kvs). apply spec_stored; [exact Hs|intros a e _ []|].
+    apply ForallPairs_ForallOrdPairs. intros a b Ha Hb. apply Hpc; assumption.
+Qed.
+
+(* hence: whichever order Go's map iteration produces, toStorage succeeds or fails alike, and on success stores the same
+   entries (as a permutation) - for maps without two keys of one normalised form *)
+Theorem set_all_order_irrelevant kvs1 kvs2 st1 : Permutation kvs1 kvs2 -> NoDup (map fst kvs1) ->
+  set_all [] kvs1 = Some st1 -> exists st2, set_all [] kvs2 = Some st2 /\ Permutation st1 st2.
+Proof.
+  intros Hp Hnd H.
+  assert (Hnd2 : NoDup (map fst kvs2)) by (eapply Permutation_NoDup; [apply Permutation_map; exact Hp|exact Hnd]).
+  apply (to_storage_spec kvs1 st1 Hnd) in H as (E & Hs & Hpc).
+  exists (entries_of kvs2). split.
+  - apply (to_storage_spec kvs2 _ Hnd2). split; [reflexivity|]. split.
+    + intros kv Hkv. apply Hs. eapply Permutation_in; [apply Permutation_sym; exact Hp|exact Hkv].
+    + intros a b Ha Hb. apply Hpc; (eapply Permutation_in; [apply Permutation_sym; exact Hp|assumption]).
+  - subst st1. apply Permutation_map. exact Hp.
+Qed.
+
+Theorem set_all_failure_order_irrelevant kvs1 kvs2 : Permutation kvs1 kvs2 -> NoDup (map fst kvs1) ->
+  set_all [] kvs1 = None -> set_all [] kvs2 = None.
+Proof.
+  intros Hp Hnd H. destruct (set_all [] kvs2) as [st2|] eqn:E; [|reflexivity].
+  assert (Hnd2 : NoDup (map fst kvs2)) by (eapply Permutation_NoDup; [apply Permutation_map; exact Hp|exact Hnd]).
+  destruct (set_all_order_irrelevant kvs2 kvs1 st2 (Permutation_sym Hp) Hnd2 E) as (st1 & E1 & _). congruence.
+Qed.
+
+Lemma expand_all_perm m1 m2 : Permutation m1 m2 -> forall k1, expand_all m1 = Some k1 ->
+  exists k2, expand_all m2 = Some k2 /\ Permutation k1 k2.
+Proof.
+  induction 1 as [|x l l' Hp IH|x y l|l l' l'' H1 IH1 H2 IH2]; intros k1 H.
+  - exists k1. split; [exact H|apply Permutation_refl].
+  - cbn [expand_all] in *. destruct (expand_entry x) as [a|]; [|discriminate].
+    destruct (expand_all l) as [b|] eqn:Eb; [|discriminate]. inversion H; subst.
+    destruct (IH b eq_refl) as (b' & Hb' & Hpb). rewrite Hb'. exists (a ++ b'). split; [reflexivity|]. apply Permutation_app_head. exact Hpb.
+  - cbn [expand_all] in *. destruct (expand_entry y) as [a|]; [|discriminate].
+    destruct (expand_entry x) as [b|]; [|destruct (expand_all l); discriminate].
+    destruct (expand_all l) as [c|]; [|discriminate]. inversion H; subst.
+    exists (b ++ a ++ c). split; [reflexivity|]. rewrite !app_assoc. apply Permutation_app_tail. apply Permutation_app_comm.
+  - destruct (IH1 k1 H) as (k2 & Hk2 & Hp2). destruct (IH2 k2 Hk2) as (k3 & Hk3 & Hp3).
+    exists k3. split; [exact Hk3|]. eapply Permutation_trans; eassumption.
+Qed.
+
+(* toStorage on a Go map: the iteration order does not matter (no two keys with one normalised form) *)
+Theorem to_storage_order_irrelevant m1 m2 kvs1 st1 : Permutation m1 m2 ->
+  expand_all m1 = Some kvs1 -> NoDup (map fst kvs1) -> to_storage m1 = Some st1 ->
+  exists st2, to_storage m2 = Some st2 /\ Permutation st1 st2.
+Proof.
+  intros Hp He Hnd Hs. unfold to_storage in *. rewrite He in Hs.
+  destruct (expand_all_perm m1 m2 Hp kvs1 He) as (kvs2 & He2 & Hpk). rewrite He2.
+  exact (set_all_order_irrelevant kvs1 kvs2 st1 Hpk Hnd Hs).
+Qed.
+
+Theorem to_storage_failure_order_irrelevant m1 m2 kvs1 : Permutation m1 m2 ->
+  expand_all m1 = Some kvs1 -> NoDup (map fst kvs1) -> to_storage m1 = None -> to_storage m2 = None.
+Proof.
+  intros Hp He Hnd Hs. unfold to_storage in *. rewrite He in Hs.
+  destruct (expand_all_perm m1 m2 Hp kvs1 He) as (kvs2 & He2 & Hpk). rewrite He2.
+  exact (set_all_failure_order_irrelevant kvs1 kvs2 Hpk Hnd Hs).
+Qed.
+
+(* the observers Refresh and inject use read a storage as a set of entries *)
+Lemma st_has_perm s1 s2 k : Permutation s1 s2 -> st_has s1 k = st_has s2 k.
+Proof.
+  intro Hp. unfold st_has. destruct (split_path k) as [p|]; [|reflexivity].
+  destruct (existsb (fun e => is_prefix p (e_path e)) s1) eqn:E1; symmetry.
+  - apply existsb_exists in E1 as (e & He & Hpre). apply existsb_exists. exists e. split; [eapply Permutation_in; eassumption|assumption].
+  - destruct (existsb (fun e => is_prefix p (e_path e)) s2) eqn:E2; [|reflexivity].
+    apply existsb_exists in E2 as (e & He & Hpre). rewrite <- E1. symmetry. apply existsb_exists. exists e.
+    split; [eapply Permutation_in; [apply Permutation_sym; eassumption|assumption]|assumption].
+Qed.
+
+Lemma st_raw_in s k v : st_raw s k = Some v -> exists e, In e s /\ e_key e = k /\ e_val e = v.
+Proof.
+  induction s as [|e s IH]; cbn [st_raw]; [discriminate|].
+  destruct (bytes_eqb (e_key e) k) eqn:E.
+  - intro H; inversion H; subst. exists e. apply bytes_eqb_eq in E. repeat split; [now left|assumption].
+  - intro H. destruct (IH H) as (e' & He' & Hk). exists e'. split; [now right|assumption].
+Qed.
+
+Lemma st_raw_unique s : NoDup (map e_key s) -> forall e, In e s -> st_raw s (e_key e) = Some (e_val e).
+Proof.
+  induction s as [|e0 s IH]; intros Hnd e He; [contradiction|]. inversion Hnd as [|? ? Hn Hnd']; subst. cbn [st_raw].
+  destruct He as [He|He].
+  - subst e0. rewrite bytes_eqb_refl. reflexivity.
+  - destruct (bytes_eqb (e_key e0) (e_key e)) eqn:E.
+    + apply bytes_eqb_eq in E. exfalso. apply Hn. rewrite E. apply in_map. assumption.
+    + apply IH; assumption.
+Qed.
+
+Lemma st_raw_perm s1 s2 k : Permutation s1 s2 -> NoDup (map e_key s1) -> st_raw s1 k = st_raw s2 k.
+Proof.
+  intros Hp Hnd.
+  assert (Hnd2 : NoDup (map e_key s2)) by (eapply Permutation_NoDup; [apply Permutation_map; exact Hp|exact Hnd]).
+  destruct (st_raw s1 k) as [v|] eqn:E1.
+  - destruct (st_raw_in _ _ _ E1) as (e & He & Hk & Hv). subst k v. symmetry. apply st_raw_unique; [assumption|].
+    eapply Permutation_in; eassumption.
+  - destruct (st_raw s2 k) as [v|] eqn:E2; [|reflexivity].
+    destruct (st_raw_in _ _ _ E2) as (e & He & Hk & Hv). subst k v.
+    rewrite (st_raw_unique s1 Hnd e) in E1; [discriminate|]. eapply Permutation_in; [apply Permutation_sym; eassumption|assumption].
+Qed.
